@@ -116,6 +116,9 @@ var anyone = []string{"bank.send", "str.create", "wrk.reg", "bcn.reg", "feegrant
 
 // acct spells account i, now and then in upper case.
 func (g *G) acct(i int) string {
+	if i <= -10 {
+		return fmt.Sprintf("L%d", -10-i)
+	}
 	if g.chance(4) {
 		return fmt.Sprintf("U%d", i)
 	}
@@ -203,7 +206,7 @@ func (g *G) unknownID(next uint64) string {
 func (g *G) pickStream(v *view, who int, role byte) (streamInfo, bool) {
 	var c []streamInfo
 	for _, s := range v.streams {
-		if s.r < 0 || s.s < 0 {
+		if s.r == -1 || s.s < 0 || (s.r < 0 && role == 'r') { // the long addresses receive, and sign nothing
 			continue
 		}
 		if who < 0 || (role == 'r' && s.r == who) || (role == 's' && s.s == who) {
@@ -395,6 +398,9 @@ func (g *G) msg(kind string, v *view, aware bool, who int, depth int) script.Msg
 	case "str.create":
 		s := g.payer(v, who)
 		r := g.other(s)
+		if g.chance(g.w.longPct) {
+			r = -10 - g.rng.Intn(4) // a receiver whose address is not 20 bytes long (or shares its first 20 bytes with another)
+		}
 		if aware { // prefer a pair without a stream
 			for try := 0; try < 4 && g.hasStream(v, r, s); try++ {
 				r = g.other(s)
@@ -403,6 +409,10 @@ func (g *G) msg(kind string, v *view, aware bool, who int, depth int) script.Msg
 		denom := g.pick("nund", "nund", "atoken", "btoken")
 		rate := []int64{1, 1 + int64(g.rng.Intn(50)), 1000, 1_000_000, 1_000_000_000}[g.rng.Intn(5)]
 		dur := []int64{60, 61, 100, 3600, 86400, 31536000}[g.rng.Intn(6)]
+		if g.chance(6) { // durations around and beyond what a time.Duration holds (292 years); some wrap to small positives
+			dur = []int64{9223372036, 9223372037, 10000000000, 18446744074, 18446747674, 27670116110}[g.rng.Intn(6)]
+			rate = 1
+		}
 		if denom == "btoken" && rate > 1000 {
 			rate = 1000
 		}
@@ -480,6 +490,9 @@ func (g *G) msg(kind string, v *view, aware bool, who int, depth int) script.Msg
 	case "bank.send":
 		f := g.payer(v, who)
 		ttok := g.acct(g.other(f))
+		if g.chance(g.w.longPct / 2) {
+			ttok = g.acct(-10 - g.rng.Intn(4))
+		}
 		if g.chance(8) {
 			ttok = "Mgov"
 			if g.w.genesis && g.chance(75) { // coins held by gov make every later genesis import fail: keep it rare
